@@ -22,6 +22,7 @@ from __future__ import annotations
 
 import itertools
 
+from lx.lifted import TWIN
 from lx.check import Obligation, Verdict
 from lx.engine import SymInt, SymStr, Unsupported, eng, sym_value
 
@@ -317,6 +318,10 @@ class StepOb(Obligation):
                 setattr(L, rkey, SymStr.const("zz"))
         except ConfigException as e:
             raised = "ConfigException"
+        if TWIN["on"]:
+            # sensitivity twin: the step also left an override for ANOTHER thread behind
+            TWIN["n"] += 1
+            object.__getattribute__(L, "_thread_config").setdefault(tids[1], {})["DEFAULT_SCHEMA"] = SymStr.const("lxtwin")
         why = None
         if (raised is not None) != expect_raise:
             why = "raised=%s expected_raise=%s" % (raised, expect_raise)
